@@ -1740,6 +1740,28 @@ def any_tests_to_loops(fn, known_tests: set) -> int:
     return n_done
 
 
+class _SpreadLiteralKwargs(ast.NodeTransformer):
+    """`f(a, **{'k': v, 'm': w})` is `f(a, k=v, m=w)` (same values evaluated in the same order)"""
+
+    def __init__(self):
+        self.n = 0
+
+    def visit_Call(self, node):
+        self.generic_visit(node)
+        new = []
+        for k in node.keywords:
+            if k.arg is None and isinstance(k.value, ast.Dict) and k.value.keys and all(isinstance(x, ast.Constant) and isinstance(x.value, str) and x.value.isidentifier()
+                                                                                         for x in k.value.keys):
+                new.extend(ast.keyword(arg=x.value, value=v) for x, v in zip(k.value.keys, k.value.values))
+                self.n += 1
+            else:
+                new.append(k)
+        names = [k.arg for k in new if k.arg]
+        if len(names) == len(set(names)):
+            node.keywords = new
+        return node
+
+
 def normalise_temporaries(tree: ast.Module, modname: str) -> int:
     """phase 1b (after a first renaming pass, so that merely renamed locals are not mistaken for new temporaries)"""
     from . import alpha
@@ -1761,6 +1783,9 @@ def normalise_temporaries(tree: ast.Module, modname: str) -> int:
         n += loops_to_comprehensions(fn, {x[0]: x[2] for x in locs.get(key, []) if x[1] == "Assign" and x[2] in ("DictComp", "ListComp", "SetComp")},
                                      {x[0] for x in locs.get(key, [])} | params)
         n += substitute_new_temporaries(fn, {x[0] for x in locs.get(key, [])} | params)
+        sp = _SpreadLiteralKwargs()
+        sp.visit(fn)
+        n += sp.n
     return n
 
 
